@@ -59,8 +59,16 @@ def run_demo(d, tree):
     return None
 
 
+VERIFY = False
+
+
 def main():
-    only = set(sys.argv[1:])
+    global VERIFY
+    args = sys.argv[1:]
+    if "--verify-demos" in args:
+        VERIFY = True
+        args.remove("--verify-demos")
+    only = set(args)
     head = sh("git rev-parse --short HEAD", "/repo")[1].strip()
     for d in sorted(glob.glob(os.path.join(VERIF, "seeded", "*", ""))):
         ident = os.path.basename(os.path.dirname(d))
@@ -75,6 +83,27 @@ def main():
                 os.remove(rebased)
             if meta.pop("superseded_by", None) is not None:
                 json.dump(meta, open(mp, "w"), indent=1)
+            if VERIFY and not meta.get("neutralised_by"):
+                # the patch applies: does the change still do what it did? A
+                # repair elsewhere may have taken its effect away (the
+                # demonstration passes with the change applied).
+                s = tempfile.mkdtemp(prefix="verif-demo-")
+                wh = os.path.join(s, "head")
+                try:
+                    sh("git worktree add -q --detach %s HEAD" % wh, "/repo")
+                    rc, o = sh("git apply %s && go build ./..." % patch, wh)
+                    if rc == 0:
+                        with_patch = run_demo(d, wh)
+                        if with_patch == 0:
+                            meta["neutralised_by"] = "a repair made since: on %s the change applies and builds, and its own demonstration passes with it" % head
+                            json.dump(meta, open(mp, "w"), indent=1)
+                            print(ident, "NEUTRALISED: demonstration passes with the change applied on", head)
+                        else:
+                            print(ident, "still breaks (demonstration exit %s)" % with_patch)
+                finally:
+                    sh("git worktree remove --force %s" % wh, "/repo")
+                    sh("git worktree prune", "/repo")
+                    sh("rm -rf %s" % s)
             continue
         m = re.search(r"HEAD ([0-9a-f]{7,})", meta.get("confirmed_by_verifier", ""))
         base = m.group(1) if m else None
